@@ -1,8 +1,9 @@
 CONSTANTS
   N = 5
-  MaxB = 5
+  MaxB = 2
   WithInit = FALSE
   CanonInit = FALSE
+  SelfEdgeChecked = TRUE
   EmitCases = TRUE
 INIT Init
 NEXT Next
